@@ -202,7 +202,14 @@ impl Check for Determinism {
             // up to 14 rules: a command that handled the formulas of a longer theory concurrently
             // would have to keep their order
             1 => (ga::program(&ga::AspCfg { max_rules: 14, ..c.clone() }), prop::sample::select(Transform::all())).prop_map(|(p, t)| DetCase::Translate(p, t)),
-            1 => (ga::program(&c), ga::program(&c), flags).prop_map(|(a, b, f)| DetCase::Strong(a, b, f)),
+            1 => (ga::program(&c), ga::program(&c), flags, 0u8..4).prop_map(|(a, b, mut f, d)| {
+                match d {
+                    1 => f.push("--direction=forward"),
+                    2 => f.push("--direction=backward"),
+                    _ => {}
+                }
+                DetCase::Strong(a, b, f)
+            }),
         ]
         .boxed()
     }
@@ -393,10 +400,11 @@ impl Check for Determinism {
             }
             DetCase::Strong(a, b, flags) => {
                 let dir = cli::scratch_dir("c18");
-                let pa = dir.join("a.lp");
-                let pb = dir.join("b.lp");
-                std::fs::write(&pa, safe_print::asp_program(a, &Style::plain())).unwrap();
-                std::fs::write(&pb, safe_print::asp_program(b, &Style::plain())).unwrap();
+                // the two programs are named in one of several ways (against the alphabet, through a
+                // directory, a file next to its directory): left is always the first program
+                let (ta, tb) = (safe_print::asp_program(a, &Style::plain()), safe_print::asp_program(b, &Style::plain()));
+                let layout = (hash64(&format!("{ta}|{tb}")) % cli::STRONG_LAYOUTS as u64) as usize;
+                let paths = cli::strong_layout(&dir, &ta, &tb, layout);
                 let mut snapshots = vec![];
                 let mut streams: Vec<(String, String)> = vec![];
                 for i in 0..3 {
@@ -411,8 +419,7 @@ impl Check for Determinism {
                         out.to_string_lossy().to_string(),
                     ];
                     args.extend(flags.iter().map(|s| s.to_string()));
-                    args.push(pa.to_string_lossy().to_string());
-                    args.push(pb.to_string_lossy().to_string());
+                    args.extend(paths.iter().cloned());
                     let argv: Vec<&str> = args.iter().map(|s| s.as_str()).collect();
                     let r = run60(&bin, &argv, None);
                     if r.timed_out {
@@ -428,7 +435,7 @@ impl Check for Determinism {
                     return Outcome::fail(
                         "nondeterministic-problems",
                         format!(
-                            "C18: verify --save-problems wrote different files in separate processes\n  left: {}\n  right: {}\n  flags: {flags:?}",
+                            "C18: verify --save-problems wrote different files in separate processes (argument layout {layout})\n  left: {}\n  right: {}\n  flags: {flags:?}",
                             safe_print::asp_program(a, &Style::plain()),
                             safe_print::asp_program(b, &Style::plain())
                         ),
@@ -439,7 +446,13 @@ impl Check for Determinism {
                     let has = |f: &str| flags.iter().any(|x| *x == f);
                     let lib_flags = crate::generators::task::Flags {
                         sequential: !has("--decomposition=independent"),
-                        direction: fol::Direction::Universal,
+                        direction: if has("--direction=forward") {
+                            fol::Direction::Forward
+                        } else if has("--direction=backward") {
+                            fol::Direction::Backward
+                        } else {
+                            fol::Direction::Universal
+                        },
                         simplify: !has("--no-simplify"),
                         eq_break: !has("--no-eq-break"),
                     };
@@ -455,7 +468,7 @@ impl Check for Determinism {
                         return Outcome::fail(
                             "cli-differs-from-library",
                             format!(
-                                "C18: the problem files written by `verify --equivalence strong` differ from the problems generated in-process with the same options\n  left: {}\n  right: {}\n  flags: {flags:?}\n  cli files: {:?}\n  library: {:?}",
+                                "C18: the problem files written by `verify --equivalence strong` (argument layout {layout}) differ from the problems generated in-process with the same options\n  left: {}\n  right: {}\n  flags: {flags:?}\n  cli files: {:?}\n  library: {:?}",
                                 safe_print::asp_program(a, &Style::plain()),
                                 safe_print::asp_program(b, &Style::plain()),
                                 snapshots[0].1.iter().map(|x| &x.0).collect::<Vec<_>>(),
@@ -488,7 +501,7 @@ impl Check for Determinism {
         if let Some(p) = j.get("program") {
             Some(DetCase::Translate(p.as_str()?.parse().ok()?, Transform::parse(j["transform"].as_str()?)?))
         } else {
-            let all = ["--no-simplify", "--no-eq-break", "--decomposition=independent", "--formula-representation=mu"];
+            let all = ["--no-simplify", "--no-eq-break", "--decomposition=independent", "--formula-representation=mu", "--direction=forward", "--direction=backward"];
             let flags = j["flags"]
                 .as_array()?
                 .iter()
